@@ -137,7 +137,7 @@ def run_property(prop, root='/repo', tier='quick', seed=0, only_rule=None):
         runs.append(rr)
     if not runs:
         raise AnalysisError(f'no rules registered for {prop}')
-    if errors and not any(i.status == 'violated' for rr in runs for i in rr.instances):
+    if errors and not classify(prop, runs)[1]:
         raise AnalysisError(' ;; '.join(errors))
     LAST_ERRORS[:] = errors
     return runs
